@@ -384,10 +384,10 @@ def execute(sc):
 def describe():
     return dict(
         rule=("Hypothesis-generated scenarios in four modes: arith (advance(m)/take_step histories, m in 0..260 biased to 0, 1, "
-              "99-101, 199-201, all sampler classes), pool (real ChainPool of 1-4 mixed chains on the simulated Pool under seeded "
+              "99-101, 199-201, now and then 300-5000, all sampler classes, save/load restarts in between), pool (real ChainPool of 1-4 mixed chains on the simulated Pool under seeded "
               "schedules with worker starvation/reuse, compared with serial deep copies), timed (run_for on a simulated clock: "
               "0.2 ms to 10 min per evaluation, budgets 0 to 2000 evaluations, forward clock jumps, slow single evaluations), "
-              "pt_timed (ParallelTempering.run_for inside the process simulation). Non-trivial = advance with m>0 / pool of >=2 "
+              "pt_timed (ParallelTempering.run_for inside the process simulation, budgets up to 50 h), pt_advance. Non-trivial = advance with m>0 / pool of >=2 "
               "chains advanced / positive time budget; distinct = distinct scenario digest."),
         real_vs_stub=dict(real=["MarkovChain.advance / run_for", "EnsembleSampler.advance", "ChainPool", "ParallelTempering.run_for",
                                 "ChainProgressPrinter"],
